@@ -72,11 +72,15 @@ def jobs(tier):
                     if code in ("BS", "BSB", "BMS", "BSS"):
                         # an own symbolic UTC offset per transaction: the guard must follow instants, not wall-clock readings
                         js.append({"for": prop, "code": code, "accs": accs, "n": False, "todate": False, "off": "each"})
+    # a transfer whose whole amount may be eaten by the fee (nothing received): the destination account is still touched
+    for code in ("BM", "BMS"):
+        for accs in _assignments(code):
+            js.append({"for": "C07", "code": code, "accs": accs, "n": True, "todate": False, "recv0": True})
     return js
 
 
 def describe(spec):
-    return "%s %s accs=%s%s%s" % (spec["for"], spec["code"], "/".join("".join(map(str, a)) for a in spec["accs"]), " -n" if spec["n"] else "", " to_date" if spec["todate"] else "") + (" rev-rows" if spec.get("rev") else "") + (" offset=" + spec["off"] if spec.get("off") else "")
+    return "%s %s accs=%s%s%s" % (spec["for"], spec["code"], "/".join("".join(map(str, a)) for a in spec["accs"]), " -n" if spec["n"] else "", " to_date" if spec["todate"] else "") + (" rev-rows" if spec.get("rev") else "") + (" offset=" + spec["off"] if spec.get("off") else "") + (" received>=0" if spec.get("recv0") else "")
 
 
 def weight(spec):
@@ -107,6 +111,8 @@ def run(S, spec):
         s["ex"], s["ho"] = ACCOUNTS[acc[0]]
         if ch == "M":
             s["ex2"], s["ho2"] = ACCOUNTS[acc[1]]
+            if spec.get("recv0"):
+                s["a0"], s["fee"] = True, "pos"
         slots.append(s)
     n = len(slots)
     if spec.get("rev"):
